@@ -144,9 +144,11 @@ theorem inv_step {s s' : State} (a : Action) (hi : Inv s) (h : step s a = some s
     · simp at h
   | ctxExpire =>
     simp only [step] at h
-    cases h
-    obtain ⟨h1, h2, h3, h4, h5, h6, h7, h8, h9, h10, h11, h12, h13, h14, h15⟩ := hi
-    constructor <;> simp_all
+    split at h
+    · simp at h
+    · cases h
+      obtain ⟨h1, h2, h3, h4, h5, h6, h7, h8, h9, h10, h11, h12, h13, h14, h15⟩ := hi
+      constructor <;> simp_all
   | cancel =>
     simp only [step] at h
     split at h
@@ -350,6 +352,7 @@ theorem inv_step {s s' : State} (a : Action) (hi : Inv s) (h : step s a = some s
 theorem inv_reachable {s : State} (h : Reachable s) : Inv s := by
   induction h with
   | init => exact inv_init
+  | initNoLimit => exact inv_initNoLimit
   | step a _ hs ih => exact inv_step a ih hs
 
 end C11
